@@ -17,11 +17,14 @@ CLAUSES = {
     "C13.factory": 2500, "C13.intact": 20000,
     "C13.summary.history": 50000,
     "C13.factory.history": 10000, "C13.equivariance.ops": 8000,
+    "C13.labels.optional": 8000,
 }
 RULE = ("seeded class-based genotype matrices: phased (ploidy,n,m) and unphased (n,m) int8 sources of ploidy 1 and 2; n in 1..40 "
         "(plus n=49/98/103 where 1/(ploidy*n) rounds), m in 1..60 (skewed small, m=1 included); contents random / rare alleles / "
         "monomorphic markers mixed in / all monomorphic / duplicated taxa / all heterozygous / inbred lines; labels present, absent, "
-        "duplicate names, grouped or not; every case drives all four estimators with their own argument class (reference "
+        "duplicate names, grouped or not; optional variant label arrays (chrgrp, phypos, name, genpos, xoprob, hapgrp, hapalt, hapref, "
+        "vrnt_mask all True | mixed | all False | assigned after construction | absent; full or partial sets) on 80 % of the sources, "
+        "each judged against the formula over ALL markers and against the twin source without them; every case drives all four estimators with their own argument class (reference "
         "frequencies None | scalar | vector inside (0,1) | vector with exact 0/1 entries; marker weights None | scalar incl. 0 | "
         "vector with zeros | integer vector | all zero | 1e-3..1e3 spread), a random permutation and a random sub-selection, both "
         "output formats (the format argument spelled lower-case, Capitalised, UPPER and mIxEd in rotation on every format-taking method), and (every 4th case) the factory classes.  History family: a live, invertible coancestry object (n 2..8, m > n) is "
@@ -59,6 +62,8 @@ ASSUME = [
     "accepted as long as data and labels follow the same reading; sort/group orders are the library's choice and are identified "
     "from unique taxon names (not judged when names are absent or duplicated)",
     "factory family: factory constructors take no arguments in the unchanged API; only from_gmat call sequences are driven",
+    "optional variant labels, including vrnt_mask, are annotations: no estimator's definition in the property refers to them, so "
+    "they must not change the matrix (the matrix is defined over the genotype matrix's markers)",
     "numpy.linalg.eigvalsh / solve and long-double accumulation are correct (trusted base)",
 ]
 TRUSTED = ["pbmon/oracle/relmat.py"]
@@ -96,15 +101,58 @@ def classes():
     return {"molecular": (Mol, FMol), "vanraden": (VR, FVR), "yang": (YG, FYG), "gweighted": (GW, FGW)}
 
 
-def make_gmat(alleles, phased, ploidy, taxa, taxa_grp):
-    """Build the library object from the raw allele array (ploidy, n, m)."""
+VLABEL_CLASSES = ["no variant labels", "no variant labels", "all variant labels/vrnt_mask all True", "all variant labels/vrnt_mask mixed",
+                  "all variant labels/vrnt_mask all False", "all variant labels/vrnt_mask assigned after construction",
+                  "only vrnt_mask (mixed)", "only vrnt_name and vrnt_mask (mixed)", "all variant labels/no vrnt_mask",
+                  "only genetic positions and crossover probabilities"]
+
+
+def gen_vlabels(g, m):
+    """Optional variant label arrays of a source (none of them is data of any estimator): (class, constructor kwargs,
+    mask to assign after construction or None)."""
+    cls = str(g.choice(VLABEL_CLASSES))
+    if cls == "no variant labels":
+        return cls, {}, None
+    full = dict(vrnt_chrgrp=numpy.sort(g.integers(1, 4, m)).astype("int64"), vrnt_phypos=(numpy.arange(1, m + 1) * 10).astype("int64"),
+                vrnt_name=numpy.array(["v%d" % i for i in g.permutation(m)], dtype=object),
+                vrnt_genpos=numpy.cumsum(g.uniform(0, 0.3, m)), vrnt_xoprob=g.uniform(0, 0.5, m),
+                vrnt_hapgrp=g.integers(0, 3, m).astype("int64"), vrnt_hapalt=numpy.array(["A"] * m, dtype=object),
+                vrnt_hapref=numpy.array(["C"] * m, dtype=object))
+    mixed = g.random(m) < 0.5
+    if m >= 2 and (mixed.all() or not mixed.any()):
+        mixed[0] = True; mixed[1] = False
+    post = None
+    if cls.endswith("all True"):
+        full["vrnt_mask"] = numpy.ones(m, dtype=bool)
+    elif cls.endswith("mixed"):
+        full["vrnt_mask"] = mixed
+    elif cls.endswith("all False"):
+        full["vrnt_mask"] = numpy.zeros(m, dtype=bool)
+    elif cls.endswith("after construction"):
+        post = mixed
+    if cls == "only vrnt_mask (mixed)":
+        return cls, {"vrnt_mask": mixed}, None
+    if cls == "only vrnt_name and vrnt_mask (mixed)":
+        return cls, {"vrnt_name": full["vrnt_name"], "vrnt_mask": mixed}, None
+    if cls == "only genetic positions and crossover probabilities":
+        return cls, {"vrnt_genpos": full["vrnt_genpos"], "vrnt_xoprob": full["vrnt_xoprob"]}, None
+    return cls, full, post
+
+
+def make_gmat(alleles, phased, ploidy, taxa, taxa_grp, vlabels=None):
+    """Build the library object from the raw allele array (ploidy, n, m); ``vlabels`` = (class, kwargs, mask assigned afterwards)."""
     from pybrops.popgen.gmat.DensePhasedGenotypeMatrix import DensePhasedGenotypeMatrix
     from pybrops.popgen.gmat.DenseGenotypeMatrix import DenseGenotypeMatrix
     t = None if taxa is None else taxa.copy()
     tg = None if taxa_grp is None else taxa_grp.copy()
+    kw = {} if vlabels is None else {k: v.copy() for k, v in vlabels[1].items()}
     if phased:
-        return DensePhasedGenotypeMatrix(numpy.ascontiguousarray(alleles.astype("int8")), taxa=t, taxa_grp=tg)
-    return DenseGenotypeMatrix(alleles.sum(0).astype("int8"), taxa=t, taxa_grp=tg, ploidy=int(ploidy))
+        gm = DensePhasedGenotypeMatrix(numpy.ascontiguousarray(alleles.astype("int8")), taxa=t, taxa_grp=tg, **kw)
+    else:
+        gm = DenseGenotypeMatrix(alleles.sum(0).astype("int8"), taxa=t, taxa_grp=tg, ploidy=int(ploidy), **kw)
+    if vlabels is not None and vlabels[2] is not None:
+        gm.vrnt_mask = vlabels[2].copy()
+    return gm
 
 
 # ------------------------------------------------------------------ generators
@@ -487,7 +535,10 @@ def one_case(ctx, c):
     src = gen_source(g)
     A, ploidy, phased, n, m = src["alleles"], src["ploidy"], src["phased"], src["n"], src["m"]
     coords = [c, "rel"]
-    gm = make_gmat(A, phased, ploidy, src["taxa"], src["taxa_grp"])
+    vl = gen_vlabels(ctx.rng("rel-vlabels", c), m)   # own stream: the rest of the case is unchanged by this draw
+    src["vlabels"] = vl[0]
+    gm = make_gmat(A, phased, ploidy, src["taxa"], src["taxa_grp"], vl)
+    mask0 = None if gm.vrnt_mask is None else gm.vrnt_mask.copy()
     if src["labels"] == "grouped":
         try:
             gm.group_taxa()
@@ -516,6 +567,8 @@ def one_case(ctx, c):
                     "mat": raw if raw.size <= 200 else "shape %s" % (raw.shape,), "taxa": src["taxa_now"],
                     "arguments": {k: (None if v is None else v[1]) for k, v in plan.items()}})
     cls = classes()
+    ctx.sumnote("sources with: %s" % vl[0])
+    twin = None if vl[0] == "no variant labels" else make_gmat(A_now, phased, ploidy, src["taxa_now"], src["grp_now"])
     for est in ("molecular", "vanraden", "yang", "gweighted"):
         if plan[est] is None:
             ctx.sumnote("out of domain: %s with sample frequencies on the boundary" % est)
@@ -525,7 +578,8 @@ def one_case(ctx, c):
         icls = key_class(est, kwargs, ploidy)
         ctx.sumnote("driven: %s on %s with %s" % (est, src["kind"], acls))
         site = "%s.from_gmat" % Cls.__name__
-        wit = {"estimator": est, "source": src["kind"], "source_mat": raw, "ploidy": ploidy, "argument_class": acls, "arguments": kwargs}
+        wit = {"estimator": est, "source": src["kind"], "source_mat": raw, "ploidy": ploidy, "argument_class": acls, "arguments": kwargs,
+               "variant_labels": vl[0], "vrnt_mask": mask0}
         ok, cm = returns(ctx, site, icls, coords, lambda: Cls.from_gmat(gm, **copy_kwargs(kwargs)), wit)
         if not ok:
             continue
@@ -536,9 +590,18 @@ def one_case(ctx, c):
         ctx.check("C13.def.%s" % est, err <= O.tol(esc), site, "mat == published formula", icls,
                   witness=dict(wit, got=cm.mat if good else repr(cm), expected=exp, err=err), coords=coords)
         ctx.check("C13.intact", numpy.array_equal(gm.mat, raw) and same_labels(gm.taxa, src["taxa_now"])
-                  and same_labels(gm.taxa_grp, src["grp_now"]), site, "source genotype matrix unchanged", src["kind"], witness=wit, coords=coords)
+                  and same_labels(gm.taxa_grp, src["grp_now"]) and same_labels(gm.vrnt_mask, mask0), site, "source genotype matrix unchanged", src["kind"], witness=wit, coords=coords)
         if not good:
             continue
+        if twin is not None:
+            # optional variant labels (mask, names, positions, haplotype groups...) are not data of any estimator:
+            # the twin source that differs only by lacking them must give the same matrix and the same taxon labels
+            ok, ct = returns(ctx, site, icls + "/unlabelled twin", coords, lambda: Cls.from_gmat(twin, **copy_kwargs(kwargs)), wit)
+            if ok:
+                e3 = O.maxerr(cm.mat, ct.mat)
+                ctx.check("C13.labels.optional", e3 <= O.tol(esc) and same_labels(cm.taxa, ct.taxa) and same_labels(cm.taxa_grp, ct.taxa_grp),
+                          site, "mat and taxon labels == those from the twin source without optional variant labels", vl[0],
+                          witness=dict(wit, got=cm.mat, twin=ct.mat, err=e3), coords=coords)
         G = judge_matrix(ctx, est, cm, src, icls, coords, wit)
         # -- permutation / sub-selection of taxa commute with the estimator
         reest = any(v is None for k, v in kwargs.items() if k in ("p_anc", "afreq")) and est != "molecular"
@@ -674,7 +737,7 @@ def _fac_source(g, m, need):
     lab = str(g.choice(["named+grp", "named", "none"]))
     taxa = numpy.array(["f%03d" % i for i in g.permutation(n)], dtype=object) if lab != "none" else None
     grp = g.integers(0, 3, n).astype("int64") if lab == "named+grp" else None
-    return kname, ploidy, phased, A, taxa, grp
+    return kname, ploidy, phased, A, taxa, grp, gen_vlabels(g, m)
 
 
 def _opt_arg(g, m, kind):
@@ -724,8 +787,8 @@ def case_factory(ctx, c):
             if (need == "any" and not inside.any()) or (need == "all" and not inside.all()):
                 reuse = False
         if not reuse:
-            kname, ploidy, phased, A, taxa, grp = _fac_source(g, m, need)
-            gm = make_gmat(A, phased, ploidy, taxa, grp)
+            kname, ploidy, phased, A, taxa, grp, vl = _fac_source(g, m, need)
+            gm = make_gmat(A, phased, ploidy, taxa, grp, vl)
             raw = numpy.array(gm.mat, copy=True)
         src_taxa = None if gm.taxa is None else gm.taxa.copy()
         src_grp = None if gm.taxa_grp is None else gm.taxa_grp.copy()
@@ -741,7 +804,8 @@ def case_factory(ctx, c):
             "optional arguments left to their defaults" if not given else
             ("all optional arguments given" if len(given) == len(argnames) else "some optional arguments given"))
         icls = "%s, %s" % (this, prev)
-        hist.append({"route": route, "n": int(gm.ntaxa), "same source object": bool(reuse), "modes": dict(modes), "positional": positional})
+        hist.append({"route": route, "n": int(gm.ntaxa), "same source object": bool(reuse), "modes": dict(modes), "positional": positional,
+                     "variant labels": vl[0]})
         wit = {"estimator": est, "calls so far": list(hist), "source_mat": raw, "ploidy": ploidy, "arguments": kwargs}
         ok, cm = returns(ctx, site, icls, coords,
                          (lambda: callee(gm, *passed.values())) if positional else (lambda: callee(gm, **passed)), wit)
